@@ -34,9 +34,15 @@ func CopyFile(srcPath, destPath string) (int64, error) {
 	if err != nil {
 		return 0, err
 	}
-	defer dest.Close()
 
-	return io.Copy(dest, src)
+	n, err := io.Copy(dest, src)
+	// A file system may accept the writes and report the failure (quota, no space left on
+	// the server) only when the file is closed: without the result of Close a short copy
+	// would be reported as complete, and MoveFile would go on to remove the source.
+	if cerr := dest.Close(); err == nil {
+		err = cerr
+	}
+	return n, err
 }
 
 // MoveFile moves the specified file from srcPath to destPath.
